@@ -2,10 +2,12 @@
 //!   bsm.sign key compressed msg                  -> compact signature (65 bytes)
 //!   bsm.sign_k key compressed nonce ncompressed msg prefix -> compact signature; verify against own address
 //!   bsm.compact_verify key compressed msg prefix -> compact; verify; verify after compact round trip;
-//!                                                   plain ECDSA verify_digest(Sha256d) over a preimage built HERE
+//!                                                   plain ECDSA verify_digest(Sha256d) over a preimage built HERE;
+//!                                                   is_valid_message; is_valid_bitcoin_message; recover_public_key_from_digest
+//!                                                   (in-memory signature; re-parsed compact) = signer's key
 //!   bsm.verify msg compact prefix hash           -> 1 | ERR
 //!   bsm.tamper key compressed msg prefix kind i  -> verify;is_valid_message;is_valid_bitcoin_message after tampering
-//!                                                   (m, s, h, c, k) or re-prefixing (p)
+//!                                                   (m, s, h, c, k), re-prefixing (p), address history (q), key history (o)
 use crate::util::*;
 use bsv::{ChainParams, P2PKHAddress, PrivateKey, Signature, SigningHash, BSM, ECDSA};
 
@@ -149,7 +151,20 @@ pub fn run(op: &str, args: &[String]) -> Option<String> {
             let v3 = show_v(ECDSA::verify_digest(&preimage(&msg), &pk, &sg, SigningHash::Sha256d));
             let i1 = BSM::is_valid_message(&msg, &sg, &a) as u8;
             let i2 = a.is_valid_bitcoin_message(&msg, &sg) as u8;
-            format!("OK:{};{};{};{};{};{}", hex::encode(cb), v1, v2, v3, i1, i2)
+            // digest-based recovery from the digest computed HERE must give the signer's key in the signer's form,
+            // from the in-memory signature and from the re-parsed compact form
+            let dg = bsv::Hash::sha_256d(&preimage(&msg)).to_bytes();
+            let own = lib!(pk.to_bytes());
+            let rec = |s: &Signature| match s.recover_public_key_from_digest(&dg).and_then(|q| q.to_bytes()) {
+                Ok(b) => if b == own { "1" } else { "0" },
+                Err(_) => "E",
+            };
+            let r1 = rec(&sg);
+            let r2 = match Signature::from_compact_bytes(&cb) {
+                Ok(sg2) => rec(&sg2),
+                Err(_) => "E",
+            };
+            format!("OK:{};{};{};{};{};{};{};{}", hex::encode(cb), v1, v2, v3, i1, i2, r1, r2)
         }
         "bsm.verify" => {
             let msg = need!(arg_bytes(args, 0));
@@ -184,6 +199,20 @@ pub fn run(op: &str, args: &[String]) -> Option<String> {
                     (msg.clone(), Some(sg.clone()), some!(own_address(&other, p)))
                 }
                 "p" => (msg.clone(), Some(sg.clone()), lib!(a.set_chain_params(&chain((i % 256) as u8)))),
+                // call history on the address object: own -> prefix i -> mainnet -> p; must still verify
+                "q" => {
+                    let a1 = lib!(a.set_chain_params(&chain((i % 256) as u8)));
+                    let a2 = lib!(a1.set_chain_params(&ChainParams::mainnet()));
+                    (msg.clone(), Some(sg.clone()), lib!(a2.set_chain_params(&chain(p))))
+                }
+                // call history on the key object: derive the public key, switch the compression flag, then sign and
+                // derive the address from the switched key; must verify
+                "o" => {
+                    let _ = k.to_public_key();
+                    let k2 = k.compress_public_key(!c);
+                    let sg2 = lib!(BSM::sign_message(&k2, &msg));
+                    (msg.clone(), Some(sg2), some!(own_address(&k2, p)))
+                }
                 _ => return Some("BADARG".into()),
             };
             match sg2 {
